@@ -160,6 +160,19 @@ func dump(e influxql.Expr) J {
 		return J{"k": "call", "name": runes(x.Name), "args": args}
 	case *influxql.BinaryExpr:
 		i := opIndex(x.Op)
+		if set, ok := x.RHS.(*influxql.SetLiteral); ok && (x.Op == influxql.IN || x.Op == influxql.NOTIN) {
+			vals := []string{}
+			for v := range set.Vals {
+				switch t := v.(type) {
+				case float64:
+					vals = append(vals, "n:"+strconv.FormatFloat(t, 'g', -1, 64))
+				default:
+					vals = append(vals, fmt.Sprintf("s:%v", t))
+				}
+			}
+			sort.Strings(vals)
+			return J{"k": "in", "neg": x.Op == influxql.NOTIN, "l": dump(x.LHS), "set": vals}
+		}
 		if i < 0 {
 			return J{"k": "other", "go": "BinaryExpr op " + x.Op.String(), "l": dump(x.LHS), "r": dump(x.RHS)}
 		}
@@ -681,6 +694,24 @@ func (g *G) yyArith(depth int) string {
 }
 
 func (g *G) yyCmp() string {
+	if g.r.Chance(1, 8) {
+		n := g.r.Range(1, 4)
+		items := []string{}
+		for i := 0; i < n; i++ {
+			switch g.r.Intn(4) {
+			case 0:
+				items = append(items, influxql.QuoteString(g.strv()))
+			case 1:
+				items = append(items, gen.Pick(g.r, []string{"-1", "-2.5", "-0", "-9223372036854775807"}))
+			default:
+				items = append(items, gen.Pick(g.r, []string{"0", "1", "42", "2.5", "100.0", "9223372036854775807", "0.001"}))
+			}
+		}
+		return gen.Pick(g.r, bareNames) + gen.Pick(g.r, []string{" IN (", " in (", " NOT IN ("}) + strings.Join(items, gen.Pick(g.r, []string{", ", ","})) + ")"
+	}
+	if g.r.Chance(1, 40) {
+		return gen.Pick(g.r, bareNames) + " =~ /a\nb" + gen.Pick(g.r, []string{"", ".*", "\n"}) + "/"
+	}
 	switch g.r.Intn(6) {
 	case 0:
 		return gen.Pick(g.r, bareNames) + " = " + influxql.QuoteString(g.strv())
@@ -886,6 +917,7 @@ var witnessYY = []string{
 	"a = 1 OR b = 2 AND c = 3", "a = 1 AND b = 2 OR c = 3", "a / 2.0 > 1.2", "time > 1ns", "b / -a > 1", "b % -a = 0", "a & 1 = 1",
 	"a | 1 = 1", "a ^ 1 = 1", "host =~ /a\\/b/", "a = -1h", "\"nan\" > 1", "(a = 1 OR b = 2) AND c = 3", "a = 1 OR (b = 2 AND c = 3)",
 	"v = 9223372036854775808", "- -a > 1", "a * -b > 0", "a - -b > 0", "x = 'it\\'s' AND y = 'back\\\\slash'",
+	"a IN (1, 2.5, 'x')", "a IN (-1, 2)", "a NOT IN (-2.5)", "host IN ('it\\'s', 'b')", "a IN (0)", "h =~ /a\nb/", "h !~ /x\n/ AND v > 1",
 }
 
 func main() {
